@@ -221,6 +221,7 @@ type udpConnection struct {
 	metrics      *router.InterfaceMetrics
 	receiverDone chan struct{}
 	senderDone   chan struct{}
+	stopSend     chan struct{} // closed by stop(); the queue itself is never closed
 	running      atomic.Bool
 	connected    bool // If true, the underlying UDP socket is connected
 }
@@ -261,7 +262,9 @@ func (u *udpConnection) stop() {
 
 	if wasRunning {
 		u.conn.Close() // Unblock receiver
-		close(u.queue) // Unblock sender
+		// Unblock sender. The queue must stay open: processors, BFD sessions and the internal
+		// link's processor may still be sending to it (a send on a closed channel panics).
+		close(u.stopSend)
 		<-u.receiverDone
 		<-u.senderDone
 	}
@@ -329,16 +332,24 @@ func (u *udpConnection) receive(batchSize int, pool router.PacketPool) {
 	}
 }
 
-func readUpTo(queue <-chan *router.Packet, n int, needsBlocking bool, pkts []*router.Packet) int {
+func readUpTo(
+	queue <-chan *router.Packet, stop <-chan struct{}, n int, needsBlocking bool, pkts []*router.Packet,
+) int {
 	i := 0
 	if needsBlocking {
 		router.VerifYield("send.dequeue")
-		p, ok := <-queue
-		if !ok {
+		select {
+		case <-stop:
+			return i
+		default:
+		}
+		select {
+		case p := <-queue:
+			pkts[i] = p
+			i++
+		case <-stop:
 			return i
 		}
-		pkts[i] = p
-		i++
 	}
 
 	for ; i < n; i++ {
@@ -376,7 +387,7 @@ func (u *udpConnection) send(batchSize int, pool router.PacketPool) {
 
 	for u.running.Load() {
 		// Top-up our batch.
-		toWrite += readUpTo(queue, batchSize-toWrite, toWrite == 0, pkts[toWrite:])
+		toWrite += readUpTo(queue, u.stopSend, batchSize-toWrite, toWrite == 0, pkts[toWrite:])
 
 		// Turn the packets into underlay messages that WriteBatch can send.
 		for i, p := range pkts[:toWrite] {
@@ -510,6 +521,7 @@ func (u *provider) newConnectedLink(
 		metrics:      metrics, // send() needs them :-(
 		receiverDone: make(chan struct{}),
 		senderDone:   make(chan struct{}),
+		stopSend:     make(chan struct{}),
 		connected:    true,
 	}
 	u.allConnections = append(u.allConnections, c)
@@ -848,6 +860,7 @@ func (u *provider) NewInternalLink(
 		metrics:      metrics, // send() needs them :-(
 		receiverDone: make(chan struct{}),
 		senderDone:   make(chan struct{}),
+		stopSend:     make(chan struct{}),
 		connected:    false, // Might be exclusive to internal links, but still not connected.
 	}
 
